@@ -20,6 +20,13 @@ type Mutex struct {
 
 func (m *Mutex) Lock() {
 	if !rt.Active() {
+		if rt.Sequential() {
+			if !m.real.TryLock() {
+				rt.SeqBlock("Lock of a mutex that is held while nothing else runs that could release it")
+			}
+			rt.SeqAcquire(m, m.real.Unlock)
+			return
+		}
 		m.real.Lock()
 		return
 	}
@@ -41,6 +48,9 @@ func (m *Mutex) TryLock() bool {
 
 func (m *Mutex) Unlock() {
 	if !rt.Active() {
+		if rt.Sequential() {
+			rt.SeqRelease(m)
+		}
 		m.real.Unlock()
 		return
 	}
@@ -58,6 +68,13 @@ type RWMutex struct {
 
 func (m *RWMutex) Lock() {
 	if !rt.Active() {
+		if rt.Sequential() {
+			if !m.real.TryLock() {
+				rt.SeqBlock("Lock of a read-write mutex that is held while nothing else runs that could release it")
+			}
+			rt.SeqAcquire(m, m.real.Unlock)
+			return
+		}
 		m.real.Lock()
 		return
 	}
@@ -66,6 +83,9 @@ func (m *RWMutex) Lock() {
 }
 func (m *RWMutex) Unlock() {
 	if !rt.Active() {
+		if rt.Sequential() {
+			rt.SeqRelease(m)
+		}
 		m.real.Unlock()
 		return
 	}
@@ -76,6 +96,12 @@ func (m *RWMutex) Unlock() {
 }
 func (m *RWMutex) RLock() {
 	if !rt.Active() {
+		if rt.Sequential() {
+			if !m.real.TryRLock() {
+				rt.SeqBlock("RLock of a read-write mutex that is write-locked while nothing else runs that could release it")
+			}
+			return
+		}
 		m.real.RLock()
 		return
 	}
